@@ -12,7 +12,12 @@ use std::sync::mpsc;
 use std::sync::{Arc, Mutex};
 use std::time::{Duration, Instant};
 
-pub const VERIF_ROOT: &str = "/verif";
+/// Root of the verification tree (evidence, replays, known findings, target/bin).
+pub fn verif_root() -> PathBuf {
+    std::env::var_os("WACSIM_ROOT")
+        .map(PathBuf::from)
+        .unwrap_or_else(|| PathBuf::from("/verif"))
+}
 
 /// Path this binary was started from (not /proc/self/exe, which goes stale when the
 /// file is replaced by a rebuild while a batch is running).
@@ -99,7 +104,7 @@ pub struct KnownFinding {
 }
 
 pub fn load_known_findings() -> Vec<KnownFinding> {
-    let p = Path::new(VERIF_ROOT).join("known_findings.json");
+    let p = verif_root().join("known_findings.json");
     match std::fs::read_to_string(&p) {
         Ok(s) => serde_json::from_str::<Vec<KnownFinding>>(&s).unwrap_or_else(|e| {
             eprintln!("harness: cannot parse {}: {e}", p.display());
@@ -678,7 +683,7 @@ pub fn run_batch(cfg: BatchCfg) -> BatchReport {
     let mut violation_lines: Vec<String> = Vec::new();
     let mut known_lines: Vec<String> = Vec::new();
     let mut violation_summaries: Vec<Value> = Vec::new();
-    let replay_dir = Path::new(VERIF_ROOT).join("replays").join(&cfg.prop);
+    let replay_dir = verif_root().join("replays").join(&cfg.prop);
     let mut unknown = 0u64;
     let n_classes = by_class.len().max(1);
     for (class, mut items) in by_class {
@@ -758,7 +763,7 @@ pub fn run_batch(cfg: BatchCfg) -> BatchReport {
             continue;
         }
         if let Some(rp) = &k.replay {
-            let p = Path::new(VERIF_ROOT).join(rp);
+            let p = verif_root().join(rp);
             if let Ok(s) = std::fs::read_to_string(&p) {
                 if let Ok(rf) = serde_json::from_str::<ReplayFile>(&s) {
                     let mut c2 = cfg.clone();
@@ -833,7 +838,7 @@ pub fn run_batch(cfg: BatchCfg) -> BatchReport {
         "wall_s": wall,
         "violations": unknown,
     });
-    let ev_dir = Path::new(VERIF_ROOT).join("evidence");
+    let ev_dir = verif_root().join("evidence");
     let _ = std::fs::create_dir_all(&ev_dir);
     let ev_path = ev_dir.join(format!("{}.json", cfg.prop));
     let tmp = ev_dir.join(format!(".{}.json.tmp", cfg.prop));
